@@ -317,3 +317,74 @@ package index
 //@   props C02 C05
 //@   exit [applied-before-return] result == nil ==> gotNil[introduction.applied]
 //@   exit [safe-mode-waits-for-persist] (result == nil && !s.config.UnsafeBatch) ==> gotNil[introduction.persisted]
+
+// ---------------------------------------------------------------------------
+// C11: the deletion policy never removes a file that a retained snapshot needs
+// ---------------------------------------------------------------------------
+// Representation invariant of KeepNLatestDeletionPolicy (assumed on entry, re-established by
+// Commit): an epoch is never both live and deletable.
+// A segment file is removed only if NO epoch recorded in liveSegments lists it; a snapshot file
+// is removed only if its epoch is not among the live epochs.
+
+//@ func KeepNLatestDeletionPolicy.cleanupSegments
+//@   props C11 C14
+//@   requires p != nil
+//@   at call Remove: assert [segment-unreferenced] forall e uint64 :: has(p.liveSegments, e) ==> !has(p.liveSegments[e], segmentID)
+//@   loop 2
+//@     invariant forall e uint64 :: visited(e) ==> !has(p.liveSegments[e], segmentID)
+
+//@ func KeepNLatestDeletionPolicy.cleanupSnapshots
+//@   props C11 C14
+//@   heap_wf
+//@   requires p != nil
+//@   requires [live-and-deletable-disjoint] forall a int, b int :: (0 <= a && a < len(p.liveEpochs) && 0 <= b && b < len(p.deletableEpochs)) ==> p.liveEpochs[a] != p.deletableEpochs[b]
+//@   at call Remove: assert [snapshot-not-live] forall a int :: (0 <= a && a < len(p.liveEpochs)) ==> p.liveEpochs[a] != deletableEpoch
+//@   loop 1
+//@     invariant rangeindex < len(p.deletableEpochs)
+//@     invariant isnil(remainingEpochs) || fresh(base(remainingEpochs))
+//@     invariant forall a int, b int :: (0 <= a && a < len(p.liveEpochs) && 0 <= b && b < len(p.deletableEpochs)) ==> p.liveEpochs[a] != p.deletableEpochs[b]
+
+// ---- handles and the directory lock (C11) ----
+//@ ghost var dirLocked bool
+//@ ghost var unlockFailed bool
+
+//@ func Directory.Lock(recv) (err)
+//@   interface
+//@   props C11
+//@   modifies dirLocked
+//@   ensures err == nil ==> dirLocked
+//@   ensures err != nil ==> dirLocked == old(dirLocked)
+
+//@ func Directory.Unlock(recv) (err)
+//@   interface
+//@   props C11
+//@   modifies dirLocked, unlockFailed
+//@   ensures err == nil ==> !dirLocked && unlockFailed == old(unlockFailed)
+//@   ensures err != nil ==> dirLocked == old(dirLocked) && unlockFailed
+
+// a closer obtained from the directory is closed exactly when the last reference goes away
+//@ func closeOnLastRefCounter.DecRef
+//@   props C11
+//@   requires c != nil
+//@   ensures [closed-exactly-at-zero] (old(c.refs) == 1 && old(c.closer) != nil) ==> openHandles == old(openHandles) - 1
+//@   ensures [not-closed-otherwise] !(old(c.refs) == 1 && old(c.closer) != nil) ==> openHandles == old(openHandles)
+//@   ensures c.refs == old(c.refs) - 1
+
+//@ func closeOnLastRefCounter.AddRef
+//@   props C11
+//@   requires c != nil
+//@   ensures c.refs == old(c.refs) + 1 && openHandles == old(openHandles)
+
+// closing the writer: the directory lock is released only after the background loops have
+// stopped, and a successful close leaves the directory unlocked
+//@ func Writer.close
+//@   props C11 C15
+//@   at call Unlock: assert [unlock-after-loops-stopped] wgWaited[addr(s, asyncTasks)]
+//@   ensures [unlocked-after-close] err == nil ==> !dirLocked
+//@   ensures err != nil ==> unlockFailed
+
+// opening: whenever OpenWriter fails, the directory lock is not left held
+//@ func OpenWriter
+//@   props C11 C03
+//@   requires !dirLocked && !unlockFailed
+//@   ensures [no-lock-leak-on-failure] result1 != nil ==> (!dirLocked || unlockFailed)
